@@ -91,10 +91,13 @@ Definition import_of_doc (tid : Z) (d : json) : option imported :=
 
 (* ------------------------------------------------------------------ simple::write *)
 Definition enc_entry (o : option nat) : json := match o with Some c => JInt (Z.of_nat c) | None => JNull end.
-(* QualityInfo: integers as such, the two (three) binary32 figures as bit patterns; overall_quality is skipped when None *)
-Definition quality_obj (score theo qbits tqbits : Z) (overall : option Z) : json :=
-  JObj ((match overall with Some ob => [("overall_quality", JNum ob)] | None => [] end) ++
-        [("solution_quality", JNum qbits); ("solution_score", JInt score); ("theoretical_max_quality", JNum tqbits); ("theoretical_max_score", JInt theo)]).
+(* QualityInfo: integers as such, the two (three) binary32 figures as bit patterns -- None for a figure that is not finite (0 / 0 when no
+   participant has choices): serde_json writes such a number as null; overall_quality is skipped when there is no external data (always
+   in the simple format) *)
+Definition fig (o : option Z) : json := match o with Some b => JNum b | None => JNull end.
+Definition quality_obj (score theo : Z) (q tq : option Z) (overall : option (option Z)) : json :=
+  JObj ((match overall with Some ob => [("overall_quality", fig ob)] | None => [] end) ++
+        [("solution_quality", fig q); ("solution_score", JInt score); ("theoretical_max_quality", fig tq); ("theoretical_max_score", JInt theo)]).
 Definition simple_doc (a : list (option nat)) (quality : json) : json :=
   JObj [("assignment", JArr (map enc_entry a)); ("format", JStr SIMPLE_FORMAT); ("quality", quality); ("version", JStr SIMPLE_VERSION)].
 Definition dec_entry (j : json) : option (option nat) :=
